@@ -1473,7 +1473,7 @@ impl Prop for C11 {
                 "the --eac front-end (private to the binary) is covered by the CLI engine, not here; the 'direct' front-end sets the same public fields it sets".into(),
                 "payload regexes are limited to the syntax shared by the regex and fancy_regex crates (no look-around)".into(),
             ],
-            budget_s: (35, 1200),
+            budget_s: (90, 1200),
             workers: 0,
             required_landmarks: vec!["eac_cli_case", 
                 "judged_json",
